@@ -291,6 +291,22 @@ def build(rng, name, opts=None):
             "",
         ]
         feats.append("nested-class")
+    if chance(0.3, "deep-nested-class"):
+        mid_method = rng.random() < 0.5
+        L += ["", "class Registry:", "    class Section:"]
+        if mid_method:
+            L += ["        def title(self, t):", "            return t.upper()", ""]
+        L += [
+            "        class Entry:",
+            "            def value(self, v, times=2):",
+            "                return v * times",
+            "",
+            "            @staticmethod",
+            "            def blank():",
+            "                return 0",
+            "",
+        ]
+        feats.append("deep-nested-class" + ("+mid-method" if mid_method else ""))
     L += ["", "def workload():", "    out = []"]
     L += ["    c = make_circle(2)", "    out.append(c.area())", "    out.append(total_area([c, make_circle(1)]))", "    out.append(total_area([], scale=2))"]
     src = "\n".join(L)
@@ -317,6 +333,10 @@ def build(rng, name, opts=None):
     L += ["    cv = Canvas.of(c).add(make_circle(3))", "    out.append(cv.count)", "    out.append(Canvas.blank().count)", "    out.append(Canvas().width)"]
     if "class Layer" in src:
         L += ["    out.append(Canvas.Layer(2).above(Canvas.Layer(1)))"]
+    if "class Registry" in src:
+        L += ["    out.append(Registry.Section.Entry().value(3))", "    out.append(Registry.Section.Entry.blank())"]
+        if "def title(" in src:
+            L += ["    out.append(Registry.Section().title('t'))"]
     if "CONSTANT" in src:
         L += ["    out.append(CONSTANT + TABLE['a'])"]
     L += ["    return out", "", "", "if __name__ == '__main__':", "    print(workload())  # end of file comment", ""]
